@@ -14,6 +14,16 @@ package json
 //@   writes bytes.Buffer b
 //@   ensures[C15] marked_rejected: (=> (is_marked val) (not (= result nil.Any)))
 //@   ensures[C15] unknown_rejected: (=> (not (is_known val)) (not (= result nil.Any)))
+// What is written for the leaves (C15): a null is the text null, a bool the text true / false, a finite number
+// the text big.Float.Text('f', -1) of its value (an uninterpreted function of value and precision), appended
+// to the buffer and nothing else; an infinite number is rejected.
+//@   let B0 (old (buf.str ($at<bytes.Buffer> b)))
+//@   let B (buf.str ($at<bytes.Buffer> b))
+//@   let leaf (and (= result nil.Any) (not (is_marked val)) (is_known val))
+//@   ensures[C15] null_text: (=> (and leaf (is_null val) (or (not (is_dyn_ty t)) (is_dyn_ty (vty val)))) (= B (str.++ B0 "null")))
+//@   ensures[C15] bool_text: (=> (and leaf (not (is_null val)) (is_bool_ty t) (is_bool_ty (vty val))) (= B (str.++ B0 (ite (bool_of val) "true" "false"))))
+//@   ensures[C15] number_text: (=> (and leaf (not (is_null val)) (is_number_ty t) (is_number_ty (vty val))) (= B (str.++ B0 (num_textf (num_i val) (num_r val) (bf.negzero (bf_of val)) (bf.prec (bf_of val)) 102 (- 1)))))
+//@   ensures[C15] infinity_rejected: (=> (and (not (is_marked val)) (kn val) (is_number_ty t) (is_number_ty (vty val)) (or (raw_eq val $G<cty.PositiveInfinity>) (raw_eq val $G<cty.NegativeInfinity>))) (not (= result nil.Any)))
 //
 // marshalDynamic wraps the value in a {"value":..,"type":..} object: an error of the inner marshal
 // (in particular the rejection of a marked or unknown value) must come back as an error.
